@@ -76,7 +76,7 @@ def strategy():
         "uri": st.sampled_from(["com.myapp.error.custom", "wamp.error.not_authorized", "com.myapp.error.decorated", "a.b"]),
         "args": vals, "kwargs": kws, "tb": st.booleans(), "caller_knows": st.booleans(), "async_endpoint": st.booleans(),
         "ser": st.sampled_from(["json", "msgpack", "cbor", "ubjson"]), "own_tb": st.sampled_from([False, False, False, True]),
-        "check_types": st.sampled_from([False, False, True]), "alias": st.sampled_from([None, None, "before", "after"])})      # the procedure is registered with check_types=True (the library wraps the endpoint)
+        "check_types": st.sampled_from([False, False, True]), "alias": st.sampled_from([None, None, "before", "after"]), "codec": st.sampled_from([False, False, True])})      # the procedure is registered with check_types=True (the library wraps the endpoint)
 
 
 def check_flow(c):
@@ -93,6 +93,14 @@ def check_flow(c):
         M = callee.message
         kind, uri, args, kwargs = c["kind"], c["uri"], list(c["args"]), dict(c["kwargs"])
         callee.session.traceback_app = c["tb"]
+        wire_codec = None
+        if c.get("codec"):
+            # both peers run a payload codec (the cryptobox keyring): the error's args/kwargs travel as an encoded payload and must come out the same
+            from checks.c20_cryptobox import keyrings
+            ko, kr = keyrings("default")
+            caller.session.set_payload_codec(ko)
+            callee.session.set_payload_codec(kr)
+            wire_codec = ko
         # decoy registrations on both sides: a registry mix-up must not go unnoticed
         class DecoyA(Exception):
             pass
@@ -241,8 +249,15 @@ def check_flow(c):
             raise Violation("C18|error-wrong-correlation", "%r %r" % (e.request_type, e.request), c)
         if e.error != expect_uri:
             raise Violation("C18|wire-uri-differs|" + kind, "ERROR carries %r, expected %r" % (e.error, expect_uri), c)
-        wire_args = norm(e.args) or []
-        wire_kwargs = dict(norm(e.kwargs) or {})
+        if wire_codec is not None:
+            if not e.payload or e.args or e.kwargs:
+                raise Violation("C18|codec|error-payload-not-encoded", "payload codec active on the callee: ERROR args=%r kwargs=%r payload=%r" % (brief(e.args), brief(e.kwargs), brief(e.payload)), c)
+            from autobahn.wamp.types import EncodedPayload
+            _u, _a, _k = wire_codec.decode(True, e.error, EncodedPayload(e.payload, e.enc_algo, e.enc_serializer, e.enc_key))
+            wire_args, wire_kwargs = norm(_a) or [], dict(norm(_k) or {})
+        else:
+            wire_args = norm(e.args) or []
+            wire_kwargs = dict(norm(e.kwargs) or {})
         tb = wire_kwargs.pop("traceback", None)
         if c["tb"] and tb is None:
             raise Violation("C18|traceback-missing", "traceback_app enabled but no traceback kwarg", c)
@@ -256,7 +271,10 @@ def check_flow(c):
         # router forwards to the caller
         if kind == "exploding":
             classes["Exploding"].armed = True
-        fwd = M.Error(48, call_msg.request, e.error, args=e.args, kwargs=e.kwargs)
+        if wire_codec is not None:
+            fwd = M.Error(48, call_msg.request, e.error, payload=e.payload, enc_algo=e.enc_algo, enc_key=e.enc_key, enc_serializer=e.enc_serializer)
+        else:
+            fwd = M.Error(48, call_msg.request, e.error, args=e.args, kwargs=e.kwargs)
         err = caller.feed(fwd)
         classes["Exploding"].armed = False
         if err is not None:
